@@ -424,4 +424,47 @@ example : netReorderSub [6, 7, 8, 9, 10, 11, 12, 13, 14, 15, 16, 17, 0, 1, 2, 3,
 
 end book
 
+/-! ## the routine as a whole: its outputs are the pieces the theorems above are about -/
+
+section whole
+variable {α : Type} [Add α] [Sub α] [Mul α] [Div α] [Neg α] [OfNat α 0] [OfNat α 1] [RbOps α] [NetOps α]
+
+/-- ★ `mk_net_drms` without unit conversion and reordering (`conv=None`, `reorder=False`): every returned matrix in
+terms of the pieces - `ifltma = rb.T @ Mcb[bset_if]`, `ifltmd = rb.T @ Kcb[bset_if, bset]`, the RBE3 coefficients
+scattered into the columns `ifatmCols`, `cgatm` the solve with `Mcg` for the modes about `cg_sc` (finding F46), both
+divided by `g` in rows 0-2 (and multiplied back when `tau` is not `'g'`), the l/v versions turned by `Tsc2lv`, weight
+`Mcg[0,0]·g`, height `max|cg_sc|`, the axial directions by `argmax`, the 14 rows of `cglfa`. -/
+theorem mk_net_drms_fields (n : Nat) (M K : NMat α) (bset sub : List Nat) (u : NMat α) (isCyl isSph : Nat → Bool)
+    (ref : V3 α) (o : NetOpts α) (solve : (nc : Nat) → NMat α → NMat α → NMat α)
+    (hc : o.conv = none) (hr : o.reorder = false) :
+    let out := mkNetDrms n M K bset sub u isCyl isSph ref o solve
+    let bi : Nat → Nat := fun k => (bsetIf bset sub).getD k 0
+    let bs : Nat → Nat := fun k => bset.getD k 0
+    let cyl : Nat → Bool := fun g => isCyl (sub.getD (6 * g) 0 / 6)
+    let sph : Nat → Bool := fun g => isSph (sub.getD (6 * g) 0 / 6)
+    let rb := rbgeomUset (rowsOf sub u) cyl sph ref
+    let T := tsc2lv o.sccoord
+    out.rb = rb ∧ out.rbAll = rbgeomUset u isCyl isSph ref ∧
+      out.ifltmaSc = netDrm sub.length rb M bi ∧ out.ifltmdSc = netDrmD sub.length rb K bi bs ∧
+      out.ifltmaLv = mul6 T out.ifltmaSc ∧ out.ifltmdLv = mul6 T out.ifltmdSc ∧
+      out.mcg = (cgmass (mass6 bset.length out.rbAll fun i j => M (bs i) (bs j))).1 ∧
+      out.cgSc = (cgmass (mass6 bset.length out.rbAll fun i j => M (bs i) (bs j))).2 ∧
+      out.cgB = cgatmRhs sub.length (rbgeomUset (rowsOf sub u) cyl sph out.cgSc) M bi ∧
+      out.cgX = solve n out.mcg out.cgB ∧
+      out.cgatmSc = (if o.tauScG then divRows3 out.cgX o.g else mulRows3 (divRows3 out.cgX o.g) o.g) ∧
+      out.ifatmSc = (let a := divRows3 (scatterCols (ifatmCols (bsetIf bset sub) (indepCode sub.length o.rbe3Indep)) out.rbe3X) o.g
+                     if o.tauScG then a else mulRows3 a o.g) ∧
+      out.weightLv = out.mcg 0 0 * o.g ∧ out.heightLv = maxAbs3 out.cgSc ∧
+      out.weightSc = out.weightLv ∧ out.heightSc = out.heightLv ∧
+      out.axSc = argmaxAbs3 out.cgSc ∧ out.cgLv = mul3v T out.cgSc ∧ out.axLv = argmaxAbs3 out.cgLv ∧
+      out.replaceLv = !(allclose1 (maxAbs3 out.cgSc) (maxAbs3 out.cgLv)) ∧
+      out.cglfa = cglf14 (cglf5 (some (divRows3 out.cgX o.g)) out.ifltmaSc out.cgSc out.axSc out.weightSc out.heightSc)
+        (cglf5 (some (mul6 T (divRows3 out.cgX o.g))) out.ifltmaLv out.cgLv out.axLv out.weightLv out.heightLv)
+        out.replaceLv := by
+  intro out bi bs cyl sph rb T
+  simp only [out, mkNetDrms, mkNetDrmsWith, hc, hr, Option.isSome_none, Bool.false_eq_true, if_false]
+  repeat' constructor
+
+end whole
+
 end PyYetiVerif.C06
